@@ -88,15 +88,15 @@ def check_c01(rec):
             out.append(V('C01', 'oversubscribed:' + '+'.join(paths),
                          '%s demand %s > capacity %s' % (sname, total.tolist(), cap.tolist()),
                          dict(server=sname, apps=sorted(srv.apps))))
-        if not np.allclose(srv.free_capacity, cap - total, atol=1e-9):
+        if not np.allclose(srv.free_capacity, cap - total, rtol=0, atol=1e-6):
             out.append(V('C01', 'free-capacity-mismatch',
                          '%s free %s != %s - %s' % (sname, srv.free_capacity.tolist(),
                                                     cap.tolist(), total.tolist())))
-        if not np.allclose(srv.init_capacity, cap):
+        if not np.array_equal(srv.init_capacity, cap):
             out.append(V('C01', 'spelling:capacity', '%s asked %s (%r) got %s' % (
                 sname, cap.tolist(), H.servers[sname].get('spelled'), srv.init_capacity.tolist())))
     for an, app in cell.apps.items():
-        if an in H.apps and not np.allclose(app.demand, H.apps[an]['demand']):
+        if an in H.apps and not np.array_equal(app.demand, np.array(H.apps[an]['demand'], dtype=float)):
             out.append(V('C01', 'spelling:demand', '%s asked %s (%r) got %s' % (
                 an, H.apps[an]['demand'], H.apps[an].get('spelled'), app.demand.tolist())))
     return out
@@ -312,13 +312,15 @@ def check_c06(rec):
             per_alloc.setdefault(tuple_key(H.apps[n]['alloc']), []).append(n)
         for key, members in per_alloc.items():
             al = H.allocs[key]
-            order = sorted(members, key=lambda n: (-H.apps[n]['priority'],
-                                                   0 if ent[n]['server'] else 1,
-                                                   H.apps[n]['seq']))
+            def keyf(n):
+                return (-H.apps[n]['priority'], 0 if ent[n]['server'] else 1, H.apps[n]['seq'])
             inq = sorted(members, key=lambda n: pos[n])
-            if order != inq:
-                out.append(V('C06', 'allocation-order', 'alloc %s: queue %s expected %s' % (
-                    '/'.join(key[1]), inq, order)))
+            keys = [keyf(n) for n in inq]
+            # ties in the arrival key (instances loaded in one batch) may come in any order
+            order = inq
+            if keys != sorted(keys):
+                out.append(V('C06', 'allocation-order', 'alloc %s: queue %s keys %s not sorted' % (
+                    '/'.join(key[1]), inq, keys)))
             acc = np.zeros(3)
             reserved = np.array(al['reserved'], dtype=float)
             cap = INF if al['maxutil'] is None else al['maxutil']
@@ -446,7 +448,7 @@ def check_c08(rec):
         if s is None:
             continue
         ex = excused(rec, name, H)
-        if s['state'] == 'down':
+        if s['state'] == 'down' and s['since_hi'] is not None:
             r = a['retention'] or 0
             if after == before:
                 if t_lo >= s['since_hi'] + r + 1e-6 and not ex:
